@@ -113,6 +113,28 @@ def case(rng: Any, ctx: Ctx, index: int) -> None:
             compare('C15.identity', 'pol HWP=pol', ref, P, tol)
     guarded('C15.identity', j_ident)
 
+    # 3b. factories with float64 angles of large magnitude on float32 Stokes data (64-bit mode): the angle must not lose precision
+    def j_factory_wide() -> None:
+        if not ctx.x64 or np.dtype(dt).itemsize != 4 or 'Q' not in kind:
+            return
+        big = np.asarray(rng.uniform(-1e6, 1e6, size=shape[-1:]), dtype=np.float64)
+        ref_r = ref_matrix(QURotationOperator(jnp.asarray(big), cls.structure_for(shape, np.float64)))
+        h64 = ref_matrix(HWPOperator(cls.structure_for(shape, np.float64)))
+        p64 = ref_matrix(LinearPolarizerOperator(cls.structure_for(shape, np.float64)))
+        for which, f, ref_f in (('hwp', lambda: HWPOperator.create(shape, dt, kind, angles=jnp.asarray(big)), ref_r.T @ h64 @ ref_r),
+                                ('pol', lambda: LinearPolarizerOperator.create(shape, dt, kind, angles=jnp.asarray(big)), p64 @ ref_r),
+                                ('qurot', lambda: QURotationOperator.create(shape, dt, kind, angles=jnp.asarray(big)), ref_r)):
+            op_f = f()
+            x32 = gen.rand_input(rng, s)
+            got = np.concatenate([np.asarray(l, np.float64).ravel() for l in jax.tree.leaves(op_f.mv(x32))])
+            exp = ref_f @ dense.flatten_np(x32)
+            LOG.evaluated('C15.factory')
+            LOG.count('C15.factory', which + '-float64-angles')
+            if got.shape != exp.shape or np.abs(got - exp).max() > 2e-5 * (1 + np.abs(exp).max()):
+                LOG.violation('C15', 'C15.factory', f'{which}.create/float64-angles-large', f'differs from the Mueller product by {np.abs(got - exp).max():.3g}',
+                              angles='float64, |a| up to 1e6', stokes=kind)
+    guarded('C15.factory', j_factory_wide)
+
     # 3. factories
     def j_factory() -> None:
         which = gen.pick(rng, ['qurot', 'hwp', 'hwp-none', 'pol', 'pol-none'])
